@@ -1,0 +1,322 @@
+//! Verification seam (only compiled with the `uflow_verif` cargo feature).
+//!
+//! Gives an external harness ownership of the three sources of non-determinism the library has:
+//! the clock (`time`), the random nonces (`rand`) and the UDP socket (`net`). All three are
+//! thread-local, so independent simulations may run on different threads. Also re-exports the
+//! internal items a harness needs to drive a `HalfConnection` and the frame codec directly.
+#![allow(missing_docs)]
+
+pub use crate::half_connection::HalfConnection;
+pub use crate::half_connection::Config as HalfConnectionConfig;
+pub use crate::half_connection::FrameSink;
+pub use crate::half_connection::PacketSink;
+pub use crate::half_connection::SendRateComp;
+pub use crate::half_connection::FeedbackData;
+pub use crate::half_connection::VerifStats;
+
+pub use crate::frame::Frame;
+pub use crate::frame::HandshakeSynFrame;
+pub use crate::frame::HandshakeSynAckFrame;
+pub use crate::frame::HandshakeAckFrame;
+pub use crate::frame::HandshakeErrorType;
+pub use crate::frame::HandshakeErrorFrame;
+pub use crate::frame::DisconnectFrame;
+pub use crate::frame::DisconnectAckFrame;
+pub use crate::frame::Datagram;
+pub use crate::frame::DataFrame;
+pub use crate::frame::SyncFrame;
+pub use crate::frame::AckGroup;
+pub use crate::frame::AckFrame;
+pub use crate::frame::serial::Serialize;
+
+/// The frame checksum, as computed by the codec.
+pub fn crc32(data: &[u8]) -> u32 {
+    crate::frame::serial::verif_crc(data)
+}
+
+/// Virtual clock. `Instant::now()` reads a thread-local nanosecond counter that only the harness
+/// advances.
+pub mod time {
+    pub use std::time::Duration;
+
+    use std::cell::Cell;
+
+    thread_local! {
+        static NOW_NS: Cell<u64> = const { Cell::new(0) };
+    }
+
+    #[derive(Clone,Copy,Debug,PartialEq,Eq,PartialOrd,Ord)]
+    pub struct Instant(u64);
+
+    impl Instant {
+        pub fn now() -> Self {
+            Instant(NOW_NS.with(|c| c.get()))
+        }
+    }
+
+    impl std::ops::Sub<Instant> for Instant {
+        type Output = Duration;
+        fn sub(self, rhs: Instant) -> Duration {
+            Duration::from_nanos(self.0.saturating_sub(rhs.0))
+        }
+    }
+
+    pub fn set_ns(ns: u64) {
+        NOW_NS.with(|c| c.set(ns));
+    }
+
+    pub fn get_ns() -> u64 {
+        NOW_NS.with(|c| c.get())
+    }
+
+    pub fn advance_ns(ns: u64) {
+        NOW_NS.with(|c| c.set(c.get().saturating_add(ns)));
+    }
+}
+
+/// Seeded replacement for `rand::random()`. Values pushed with `push_script` are handed out first
+/// (one per call, truncated to the requested type), then a splitmix64 stream.
+pub mod rand {
+    use std::cell::RefCell;
+    use std::collections::VecDeque;
+
+    struct Source {
+        state: u64,
+        script: VecDeque<u64>,
+        calls: u64,
+    }
+
+    thread_local! {
+        static SOURCE: RefCell<Source> = RefCell::new(Source { state: 0x9E3779B97F4A7C15, script: VecDeque::new(), calls: 0 });
+    }
+
+    pub fn seed(seed: u64) {
+        SOURCE.with(|s| {
+            let mut s = s.borrow_mut();
+            s.state = seed;
+            s.script.clear();
+            s.calls = 0;
+        });
+    }
+
+    pub fn push_script(value: u64) {
+        SOURCE.with(|s| s.borrow_mut().script.push_back(value));
+    }
+
+    pub fn calls() -> u64 {
+        SOURCE.with(|s| s.borrow().calls)
+    }
+
+    fn next_u64() -> u64 {
+        SOURCE.with(|s| {
+            let mut s = s.borrow_mut();
+            s.calls += 1;
+            if let Some(v) = s.script.pop_front() {
+                return v;
+            }
+            s.state = s.state.wrapping_add(0x9E3779B97F4A7C15);
+            let mut z = s.state;
+            z = (z ^ (z >> 30)).wrapping_mul(0xBF58476D1CE4E5B9);
+            z = (z ^ (z >> 27)).wrapping_mul(0x94D049BB133111EB);
+            z ^ (z >> 31)
+        })
+    }
+
+    pub trait VerifRandom {
+        fn from_u64(v: u64) -> Self;
+    }
+
+    impl VerifRandom for bool {
+        fn from_u64(v: u64) -> Self { v & 1 != 0 }
+    }
+
+    impl VerifRandom for u32 {
+        fn from_u64(v: u64) -> Self { v as u32 }
+    }
+
+    pub fn random<T: VerifRandom>() -> T {
+        T::from_u64(next_u64())
+    }
+}
+
+/// In-process datagram switch standing in for `std::net::UdpSocket`. Nothing is delivered on its
+/// own: every datagram sent is appended to a thread-local wire log which the harness drains with
+/// `take_wire()`, and a datagram reaches a socket only when the harness calls `inject()`.
+pub mod net {
+    pub use std::net::SocketAddr;
+    pub use std::net::ToSocketAddrs;
+    pub use std::net::IpAddr;
+    pub use std::net::Ipv4Addr;
+    pub use std::net::Ipv6Addr;
+
+    use std::cell::RefCell;
+    use std::collections::HashMap;
+    use std::collections::VecDeque;
+    use std::io;
+    use std::rc::Rc;
+
+    #[derive(Clone,Debug)]
+    pub struct WireDatagram {
+        pub from: SocketAddr,
+        pub to: SocketAddr,
+        pub data: Box<[u8]>,
+    }
+
+    struct SocketState {
+        peer: Option<SocketAddr>,
+        inbox: VecDeque<(SocketAddr, Box<[u8]>)>,
+    }
+
+    struct Switch {
+        sockets: HashMap<SocketAddr, Rc<RefCell<SocketState>>>,
+        wire: Vec<WireDatagram>,
+        next_port: u16,
+    }
+
+    thread_local! {
+        static SWITCH: RefCell<Switch> = RefCell::new(Switch { sockets: HashMap::new(), wire: Vec::new(), next_port: 40000 });
+    }
+
+    /// Forgets every socket, queued datagram and the wire log.
+    pub fn reset() {
+        SWITCH.with(|s| {
+            let mut s = s.borrow_mut();
+            s.sockets.clear();
+            s.wire.clear();
+            s.next_port = 40000;
+        });
+    }
+
+    /// Drains the log of datagrams sent since the last call.
+    pub fn take_wire() -> Vec<WireDatagram> {
+        SWITCH.with(|s| std::mem::take(&mut s.borrow_mut().wire))
+    }
+
+    /// Places a datagram in the receive queue of the socket bound to `to`. Returns false if there
+    /// is no such socket, or if it is connected to a peer other than `from`.
+    pub fn inject(to: SocketAddr, from: SocketAddr, data: &[u8]) -> bool {
+        SWITCH.with(|s| {
+            let s = s.borrow();
+            if let Some(sock) = s.sockets.get(&to) {
+                let mut sock = sock.borrow_mut();
+                if let Some(peer) = sock.peer {
+                    if peer != from {
+                        return false;
+                    }
+                }
+                sock.inbox.push_back((from, data.into()));
+                true
+            } else {
+                false
+            }
+        })
+    }
+
+    /// Number of datagrams waiting in the receive queue of the socket bound to `addr`.
+    pub fn inbox_len(addr: SocketAddr) -> usize {
+        SWITCH.with(|s| s.borrow().sockets.get(&addr).map_or(0, |sock| sock.borrow().inbox.len()))
+    }
+
+    pub struct UdpSocket {
+        local: SocketAddr,
+        state: Rc<RefCell<SocketState>>,
+    }
+
+    impl UdpSocket {
+        pub fn bind<A: ToSocketAddrs>(addr: A) -> io::Result<UdpSocket> {
+            let requested = addr.to_socket_addrs()?.next().ok_or_else(|| io::Error::new(io::ErrorKind::InvalidInput, "no address"))?;
+
+            SWITCH.with(|s| {
+                let mut s = s.borrow_mut();
+
+                let ip = if requested.ip().is_unspecified() {
+                    match requested {
+                        SocketAddr::V4(_) => IpAddr::V4(Ipv4Addr::LOCALHOST),
+                        SocketAddr::V6(_) => IpAddr::V6(Ipv6Addr::LOCALHOST),
+                    }
+                } else {
+                    requested.ip()
+                };
+
+                let port = if requested.port() == 0 {
+                    loop {
+                        let port = s.next_port;
+                        s.next_port = if s.next_port == u16::MAX { 40000 } else { s.next_port + 1 };
+                        if !s.sockets.contains_key(&SocketAddr::new(ip, port)) {
+                            break port;
+                        }
+                    }
+                } else {
+                    requested.port()
+                };
+
+                let local = SocketAddr::new(ip, port);
+
+                if s.sockets.contains_key(&local) {
+                    return Err(io::Error::new(io::ErrorKind::AddrInUse, "address in use"));
+                }
+
+                let state = Rc::new(RefCell::new(SocketState { peer: None, inbox: VecDeque::new() }));
+                s.sockets.insert(local, Rc::clone(&state));
+
+                Ok(UdpSocket { local, state })
+            })
+        }
+
+        pub fn set_nonblocking(&self, _nonblocking: bool) -> io::Result<()> {
+            Ok(())
+        }
+
+        pub fn connect<A: ToSocketAddrs>(&self, addr: A) -> io::Result<()> {
+            let peer = addr.to_socket_addrs()?.next().ok_or_else(|| io::Error::new(io::ErrorKind::InvalidInput, "no address"))?;
+            self.state.borrow_mut().peer = Some(peer);
+            Ok(())
+        }
+
+        pub fn local_addr(&self) -> io::Result<SocketAddr> {
+            Ok(self.local)
+        }
+
+        pub fn peer_addr(&self) -> io::Result<SocketAddr> {
+            self.state.borrow().peer.ok_or_else(|| io::Error::new(io::ErrorKind::NotConnected, "not connected"))
+        }
+
+        pub fn send_to<A: ToSocketAddrs>(&self, buf: &[u8], addr: A) -> io::Result<usize> {
+            let to = addr.to_socket_addrs()?.next().ok_or_else(|| io::Error::new(io::ErrorKind::InvalidInput, "no address"))?;
+            SWITCH.with(|s| s.borrow_mut().wire.push(WireDatagram { from: self.local, to, data: buf.into() }));
+            Ok(buf.len())
+        }
+
+        pub fn send(&self, buf: &[u8]) -> io::Result<usize> {
+            let to = self.peer_addr()?;
+            SWITCH.with(|s| s.borrow_mut().wire.push(WireDatagram { from: self.local, to, data: buf.into() }));
+            Ok(buf.len())
+        }
+
+        pub fn recv_from(&self, buf: &mut [u8]) -> io::Result<(usize, SocketAddr)> {
+            if let Some((from, data)) = self.state.borrow_mut().inbox.pop_front() {
+                let n = data.len().min(buf.len());
+                buf[..n].copy_from_slice(&data[..n]);
+                Ok((n, from))
+            } else {
+                Err(io::Error::new(io::ErrorKind::WouldBlock, "no datagram"))
+            }
+        }
+
+        pub fn recv(&self, buf: &mut [u8]) -> io::Result<usize> {
+            self.recv_from(buf).map(|(n, _)| n)
+        }
+    }
+
+    impl Drop for UdpSocket {
+        fn drop(&mut self) {
+            let local = self.local;
+            // The switch may already be gone during thread teardown
+            let _ = SWITCH.try_with(|s| {
+                if let Ok(mut s) = s.try_borrow_mut() {
+                    s.sockets.remove(&local);
+                }
+            });
+        }
+    }
+}
